@@ -30,6 +30,7 @@ type State struct {
 	cells    map[ssa.Value]Val
 	heaps    map[string]string
 	locks    map[string]string // lock key -> held condition
+	rets     map[string]Val    // "callee#ordinal" -> what that call returned on this path
 	called   map[string]string // callee short name -> "has been called on this path" condition
 	lockInfo map[string]*lockRec
 	lastSeen map[string]*State // lock key -> state at last unlock (for rely)
@@ -49,6 +50,10 @@ func (s *State) Clone() *State {
 	}
 	for k, v := range s.locks {
 		n.locks[k] = v
+	}
+	n.rets = map[string]Val{}
+	for k, v := range s.rets {
+		n.rets[k] = v
 	}
 	n.called = map[string]string{}
 	for k, v := range s.called {
@@ -535,6 +540,50 @@ func (fx *FuncExec) Merge(ins []incoming, what string) *State {
 			t = ite(ins[i].cond, get(ins[i].st), t)
 		}
 		n.heaps[k] = fx.em.DefineRaw(k, fx.heapInfos[k].sortText, t)
+	}
+	// rets: kept only where all incoming paths agree (a call site lies on one path)
+	n.rets = map[string]Val{}
+	for k, v := range ins[0].st.rets {
+		same := true
+		for _, in := range ins[1:] {
+			if w, ok := in.st.rets[k]; !ok || w.S != v.S || len(w.Tup) != len(v.Tup) {
+				same = false
+				break
+			}
+		}
+		if same {
+			n.rets[k] = v
+		}
+	}
+	for _, in := range ins[1:] {
+		for k, v := range in.st.rets {
+			if _, ok := n.rets[k]; ok {
+				continue
+			}
+			// present on some paths only: the value is meaningful on those paths (the call was made)
+			present := true
+			for _, in2 := range ins {
+				if w, ok := in2.st.rets[k]; ok && (w.S != v.S || len(w.Tup) != len(v.Tup)) {
+					present = false
+				}
+			}
+			if present {
+				n.rets[k] = v
+			}
+		}
+	}
+	for k, v := range ins[0].st.rets {
+		if _, ok := n.rets[k]; !ok {
+			present := true
+			for _, in2 := range ins {
+				if w, ok := in2.st.rets[k]; ok && (w.S != v.S || len(w.Tup) != len(v.Tup)) {
+					present = false
+				}
+			}
+			if present {
+				n.rets[k] = v
+			}
+		}
 	}
 	// called: merges like a held condition
 	ck := map[string]bool{}
